@@ -39,6 +39,7 @@ type LoopContract struct {
 	Invariants []*Clause
 	Modifies   []*Clause
 	ExitDo     []*Clause // ghost updates applied when the loop is left through its header
+	EntryDo    []*Clause // ghost updates applied when the loop is entered (before the invariants are checked)
 	Used       bool
 }
 
@@ -640,7 +641,7 @@ func (cs *ContractSet) parseFile(file, pkgPath string) error {
 						return fmt.Errorf("%s:%d: bad loop clause", l.file, l.line)
 					}
 					kind := f[0]
-					if kind == "exit-do" {
+					if kind == "exit-do" || kind == "entry-do" {
 						kind = "do"
 					}
 					c, err := mk(kind, strings.TrimSpace(f[1]), l)
@@ -653,6 +654,8 @@ func (cs *ContractSet) parseFile(file, pkgPath string) error {
 						lc.Modifies = append(lc.Modifies, c)
 					} else if f[0] == "exit-do" {
 						lc.ExitDo = append(lc.ExitDo, c)
+					} else if f[0] == "entry-do" {
+						lc.EntryDo = append(lc.EntryDo, c)
 					} else {
 						return fmt.Errorf("%s:%d: bad loop clause kind %s", l.file, l.line, f[0])
 					}
